@@ -383,7 +383,19 @@ func brCorpus() []any {
 	for m := 5; m <= len(h); m++ {
 		reqs = append(reqs, brReq{Kind: "cursor", M: m, KSel: 0, Undo: true}, brReq{Kind: "cursor", M: m, KSel: 1, Undo: true})
 	}
-	return []any{&brInput{Prop: "C05", First: 0, Kept: 5, History: h, Shape: "corpus/undo-cursor-now-final", Reqs: reqs}}
+	// known finding C05-through-forked-below-hub-lib: 1a, 2a (LIB 1), 3b, 3a, 4a (LIB 2), 5a (LIB 3); cursor "new 3b"
+	// (LIB 1a); target-cursor request from start 1 or 2: served after 4a (hub LIB = junction 2a), refused after 5a
+	h2 := []fkBlock{{1, 1, 100, 0}, {2, 2, 1, 1}, {30, 3, 2, 1}, {3, 3, 2, 1}, {4, 4, 3, 2}, {5, 5, 4, 3}}
+	var reqs2 []brReq
+	for m := 5; m <= 6; m++ {
+		for _, ss := range []int{1, 5, 2} { // start 2, 1, 3 for the cursor "new 3b"
+			for ks := 0; ks < 4; ks++ {
+				reqs2 = append(reqs2, brReq{Kind: "through", M: m, KSel: ks, SSel: ss})
+			}
+		}
+	}
+	return []any{&brInput{Prop: "C05", First: 0, Kept: 5, History: h, Shape: "corpus/undo-cursor-now-final", Reqs: reqs},
+		&brInput{Prop: "C05", First: 1, Kept: 2, History: h2, Shape: "corpus/through-forked-below-hub-lib", Reqs: reqs2}}
 }
 
 func init() {
